@@ -366,11 +366,24 @@ func GenHistory(r *Rng, cfg GenCfg) []Op {
 				case 1, 2:
 					// same comparator: the tree's order stays meaningful; on a collection without items any
 					// comparator may be installed (SetCollection "installs the new comparator")
+					back := false
 					if cfg.CmpMode == 1 && len(g.shadow[nm]) == 0 && !g.everFlushed && r.Chance(1, 2) {
+						old := g.cmpOf[nm]
 						g.cmpOf[nm] = r.Intn(4)
+						if old != 0 && r.Chance(1, 2) {
+							g.cmpOf[nm] = 0 // back to the default order (the harness passes nil for it)
+							back = true
+						}
 					}
 					ops = append(ops, Op{K: "coll", Name: nm, N: g.cmpOf[nm]})
 					g.colls[nm] = true
+					if back {
+						// make the order observable at once
+						for j := 0; j < 3; j++ {
+							ops = append(ops, Op{K: "set", Name: nm, Key: g.key(), Val: genVal(r, false), Prio: g.prio()})
+						}
+						ops = append(ops, Op{K: "asc", Name: nm, Key: []byte{}, WV: true, N: -1})
+					}
 				case 3:
 					ops = append(ops, Op{K: "names"})
 				}
